@@ -20,6 +20,7 @@ received / sent per connection with the virtual time; after every
     by the server while the client keeps it open
 """
 import random
+import time
 import ssl
 
 from vf.core import exc_key, Inconclusive, REPO
@@ -416,7 +417,104 @@ def persist_then_close_case(ctx, rng, idx):
         pair.close()
 
 
+def late_handshake_case(ctx, rng, idx):
+    """A TLS connection whose client connects, stays silent for a while and only then performs the handshake (bytes in both
+    directions), sending its request a little later: the handshake is activity on the connection, so the idle period counts
+    from it, not from the accept."""
+    front = rng.choice(("Valet", "Porter"))
+    T = rng.choice((1.0, 2.0))
+    rng.choice(("p11", "close11", "http10"))
+    kind = "p11"        # a persistent request: the only thing that can take the connection away before it is answered is the idle timer
+    plan = Plan("late%d" % idx, kind, 0, [], [], 9)
+    W = World(front, True, T, [plan])
+    dt = T / TICKS
+    hs_at = rng.choice((TICKS // 2, TICKS - 2, TICKS - 1))            # ticks of silence before the handshake
+    req_after = rng.choice((1, 2, TICKS // 2))                         # ticks between handshake and request (well below T)
+    while hs_at + req_after < TICKS:                                   # ... at least one timeout after the accept
+        req_after += 1
+    desc = {"front": front, "timeout": T, "tick": dt, "handshake_at_tick": hs_at, "request_at_tick": hs_at + req_after, "request": kind}
+    try:
+        cl = W.connect(plan)
+
+        def serve():
+            W.front.serviceAll()
+        # the TCP connection is made and accepted (the server starts its TLS side), then nobody speaks
+        for _ in range(200):
+            if cl.accepted or W.clienting.Client.accept(cl):      # the TCP connection alone: no TLS record yet
+                serve()
+                if W.srv.cxes or W.srv.ixes:
+                    break
+            serve()
+            time.sleep(0.0005)
+        if not (W.srv.cxes or W.srv.ixes):
+            ctx.hit("late_handshake_not_completed")
+            return
+        for tick in range(hs_at):
+            for _ in range(3):
+                serve()
+            W.clk.advanceStamp(dt)
+        # the handshake, at one virtual instant
+        if not cl.certedhost:
+            cl.certedhost = cl.ha[0]
+        cl.wrap()
+        for _ in range(200):
+            cl.serviceConnect()
+            serve()
+            if (cl.connected and cl.ca in W.srv.ixes) or cl.cutoff:
+                break
+            time.sleep(0.0005)
+        if not cl.connected or cl.cutoff or cl.ca not in W.srv.ixes:
+            ctx.hit("late_handshake_not_completed")       # (dropped before the timeout would be a plain-row verdict)
+            return
+        for tick in range(req_after):
+            W.clk.advanceStamp(dt)
+            for _ in range(3):
+                serve()
+        alive = cl.ca in W.srv.ixes
+        cl.tx(REQS[kind] % plan.name.encode())
+        got = b""
+        dropped = not alive
+        for k in range(400):
+            # no virtual time passes in this loop: the verdict is what the server does with the connection (answers it, or has
+            # removed it), not how many wall-clock milliseconds the TLS records take to arrive
+            try:
+                cl.serviceTxes()
+            except OSError:
+                dropped = True
+                break
+            serve()
+            if cl.connected and not cl.cutoff:
+                cl.serviceReceives()
+            got = bytes(cl.rxbs)
+            if b"\r\n\r\n" in got:
+                break
+            if cl.cutoff:           # the server's end of the connection is closed and everything it sent has been read
+                dropped = not got.startswith(b"HTTP/1.")
+                break
+            time.sleep(0.0005 if k < 40 else 0.005)
+        ctx.event()
+        ctx.case(("late-handshake", front, T, hs_at, req_after, kind), nontrivial=True)
+        if not dropped and not got.startswith(b"HTTP/1."):
+            ctx.hit("late_handshake_answer_not_seen_in_time")
+            return
+        ctx.hit("late_handshake_cases")
+        ctx.check(not dropped, "%s/tls/closed-before-idle-timeout/idle-period-counted-from-the-accept" % front,
+                  "%s (tls): the connection completed its TLS handshake %.2f s after the accept and sent a request %.2f s later "
+                  "(timeout %.1f); the server dropped it as idle%s" % (front, hs_at * dt, req_after * dt, T,
+                                                                      "" if alive else " before the request"),
+                  lambda: dict(desc, alive_at_request=alive, received=got[:80].decode("latin-1")))
+    finally:
+        W.close()
+
+
 def worker(ctx, job):
+    if job.get("ptc"):
+        rng2 = ctx.subrng("c28late", job["k"])
+        for i in range(max(2, job["ptc"] // 2)):
+            try:
+                late_handshake_case(ctx, rng2, i)
+            except Inconclusive as e:
+                ctx.inconclusive_case(str(e))
     if job.get("ptc"):
         rng = ctx.subrng("c28ptc", job["k"])
         for i in range(job["ptc"]):
@@ -433,6 +531,7 @@ def run(ctx):
     K = ctx.pick(12, 16)
     jobs = [{"k": k, "N": ctx.pick(30, 1500), "ptc": ctx.pick(6, 120)} for k in range(K)]
     ctx.floor("persist_then_close_cases", ctx.pick(50, 1000))
+    ctx.floor("late_handshake_cases", ctx.pick(20, 400))
     ctx.shard(jobs, timeout=ctx.pick(120, 1500))
     for sock in ("plain", "tls"):
         ctx.floor("active_beyond_timeout_%s" % sock, ctx.pick(60, 900))
